@@ -156,7 +156,7 @@ def check_iso(tz, dt):
     return 'ok'
 
 
-INVALID = ['2024-02-30', '2023-13-01T00:00:00Z', '2024-01-01T25:00:00Z', '2024/01/01', '2024-01-01T10:20', '2024-01-01T10:20:30', '2024-1-1', 'yesterday',
+INVALID = ['2100-02-29', '1900-02-29', '2300-02-29T10:00:00Z', '2024-02-30', '2023-13-01T00:00:00Z', '2024-01-01T25:00:00Z', '2024/01/01', '2024-01-01T10:20', '2024-01-01T10:20:30', '2024-1-1', 'yesterday',
            '2024-01-01T10:20:30+0100', '2024-01-01 10:20:30Z', '2024-00-10', '2024-01-00', '0000-01-01', '2023-02-29T12:00:00+00:00', '2024-01-01T10:60:00Z',
            '2024-01-01T10:20:61Z', '2024-01-01T10:20:30+25:00', '', ' 2024-01-01', '2024-01-01T10:20:30.1234567Z', '2024-04-31', '2021-02-29T00:00:00.000-05:00']
 
@@ -235,6 +235,15 @@ def gen_datetime(rnd, tz):
                              rnd.choice([0, 500000, 999999, 1000, 123000])), False
 
 
+def gen_boundary_args(rnd):
+    """Every component in its natural range except (at most) one, which sits on or just across its boundary."""
+    args = [rnd.choice([2023, 2024, 100, 9000, 1999]), rnd.randint(1, 12), rnd.randint(1, 28), rnd.randint(0, 23), rnd.randint(0, 59), rnd.randint(0, 59), rnd.randint(0, 999)]
+    pos = rnd.randint(1, 6)
+    args[pos] = rnd.choice({1: [0, 1, 12, 13, -1], 2: [0, 1, 28, 29, 30, 31, 32, -1], 3: [-1, 0, 23, 24, 25], 4: [-1, 0, 59, 60, 61], 5: [-1, 0, 59, 60, 61],
+                            6: [-1, 0, 999, 1000, 1001, 2000]}[pos])
+    return args[:rnd.choice([7, 7, 7, 6, 5, 4, 3]) if pos < 6 else 7] if pos < 3 or rnd.random() < 0.8 else args
+
+
 def gen_new_args(rnd):
     y = rnd.choice([rnd.randint(100, 9000), rnd.randint(1900, 2100), 100, 9000, 2024, 2023])
     mo = rnd.choice([rnd.randint(-30, 40), rnd.randint(1, 12), 0, 13, 12, 1, -11, 24])
@@ -270,7 +279,7 @@ def run_shard(ctx, spec):
         family = rnd.choice(['new', 'new', 'arith', 'iso', 'iso', 'parse'])
         nonhour = tz in ('Asia/Kolkata', 'Asia/Kathmandu', 'Australia/Lord_Howe', 'Pacific/Chatham')
         if family == 'new':
-            args = gen_new_args(rnd)
+            args = gen_new_args(rnd) if rnd.random() < 0.7 else gen_boundary_args(rnd)
             literal = rnd.random() < 0.5
             want = check_new(tz, args, literal)
             natural = (1 <= args[1] <= 12 and 1 <= args[2] <= 28 and all(0 <= a < lim for a, lim in zip(args[3:], (24, 60, 60, 1000))))
@@ -282,6 +291,10 @@ def run_shard(ctx, spec):
             ctx.case(digest([tz, dt.isoformat(), n]), near or nonhour or abs(n) > 10 ** 9, ['arith', 'arith:' + ('ok' if ok else 'out-of-range')], {'tz': tz, 'd': dt.isoformat(), 'n': n})
         elif family == 'iso':
             dt, near = gen_datetime(rnd, tz)
+            if near and rnd.random() < 0.5:
+                # several times of the same calendar day (both sides of a transition), formatted one after another
+                for hour in rnd.sample(range(24), 4):
+                    check_iso(tz, dt.replace(hour=hour))
             res = check_iso(tz, dt)
             if res != 'ok':
                 ctx.discard('iso-' + res)
